@@ -50,7 +50,7 @@ class Sta:
 class Scenario:
     """N real stations on one PKI; the oracle's own bookkeeping of who knows whom"""
 
-    def __init__(self, ctx, n, preload):
+    def __init__(self, ctx, n, preload, ticket_specs=None):
         from .c03 import Net
         self.ctx = ctx
         self.net = Net(ctx.rng)
@@ -59,6 +59,13 @@ class Scenario:
         self.model_ops = []        # (station, flat op, receivers)
         self.impl = []             # per op: (sender result, receiver results, dumps)
         tickets = [self.net.ticket() for _ in range(n)]
+        for i, spec in (ticket_specs or {}).items():
+            # spec = (duration unit, amount, seconds of validity left at the start of the schedule)
+            unit, amount, left_s = spec
+            from .c03 import its_now_s
+            end_s = its_now_s() + left_s
+            start_s = end_s - (amount * sc.UNIT_US[unit]) // 1_000_000
+            tickets[i] = self.net.cert(self.net.aa, U, None, None, start_s + 1000, (unit, amount))
         for i in range(n):
             known = [tickets[k] for k in preload.get(i, [])]
             r = self.net.station(0x0A0B0C0D2000 + i, own=tickets[i], known=known, reg=self.reg)
@@ -285,10 +292,10 @@ def compare_model(ctx, sc_: Scenario, tag):
 # ---------------------------------------------------------------------------
 # schedules
 
-def run_schedule(ctx, n, preload, joins, events, tag):
+def run_schedule(ctx, n, preload, joins, events, tag, ticket_specs=None):
     """joins: {station: t_ms}; events: list of (t_ms, sender, kind, data) sorted by time"""
     VCLOCK.set_ms(1_700_000_000_000)
-    sc_ = Scenario(ctx, n, preload)
+    sc_ = Scenario(ctx, n, preload, ticket_specs)
     t0 = VCLOCK.ms + 10_000
     for (t, i, kind, data) in sorted(events, key=lambda e: e[0]):
         for j, tj in joins.items():
@@ -324,6 +331,27 @@ def late_joiner_sweep(ctx, phases, preload_variants):
             ev += [(join + 1500, 0, "denm", b"\x0d\x0e"), (join + 1700, 0, "generic", b"\x0a\x0b"),
                    (join + 1900, 1, "generic", b"\x0c")]
             run_schedule(ctx, 2, pre, {0: 0, 1: join}, ev, f"late_joiner/phase{phase}/preload{sorted(pre.items())}")
+
+
+# Duration amounts are Uint16; a ticket of 65535 microseconds cannot cover a schedule, so that unit is left to C09
+VALIDITY_SPECS = [("years", 1), ("years", 3), ("years", 19), ("sixtyHours", 2), ("sixtyHours", 700), ("hours", 5),
+                  ("hours", 40000), ("minutes", 90), ("minutes", 60000), ("seconds", 5000), ("seconds", 65535),
+                  ("milliseconds", 60000)]
+
+
+def validity_sweep(ctx, specs, lefts):
+    """honest messages generated in the last hour / minute / seconds of a ticket's validity period, for every Duration
+    unit of IEEE 1609.2 (a year is 31556952 s): they must be accepted at once by a receiver that knows the ticket and by one
+    that learns it from the message"""
+    for (unit, amount) in specs:
+        for left_s in lefts:
+            if (left_s + 10) * 1_000_000 >= amount * sc.UNIT_US[unit]:
+                continue        # the ticket would not be valid yet at the start of the schedule
+            ev = [(t, 0, "cam", bytes([0, t // 300 % 256, 7])) for t in range(0, 3000, 300)]
+            ev += [(1000, 0, "denm", b"\x01\x02"), (1400, 0, "generic", b"\x03"), (1700, 0, "vam", b"\x04\x05")]
+            ev += [(t, 1, "cam", bytes([1, t // 500 % 256])) for t in range(150, 3000, 500)]
+            run_schedule(ctx, 3, {2: [0]}, {0: 0, 1: 0, 2: 0}, ev, f"validity/{unit}{amount}/left{left_s}s",
+                         ticket_specs={0: (unit, amount, left_s)})
 
 
 def random_schedule(ctx, k):
@@ -366,6 +394,8 @@ def run(ctx):
                      [(t, i, kind, bytes.fromhex(d)) for t, i, kind, d in rec["events"]], "corpus/" + rec.get("name", ""))
     phases = [0, 1, 249, 250, 251, 600, 749, 750, 751, 999, 1000, 1001, 1249] if quick else list(range(0, 1300, 25)) + [999, 1001]
     late_joiner_sweep(ctx, phases, [{}, {1: [0]}] if quick else [{}, {1: [0]}, {0: [1]}, {0: [1], 1: [0]}])
+    validity_sweep(ctx, VALIDITY_SPECS if not quick else [VALIDITY_SPECS[i] for i in (0, 2, 3, 5, 7, 9)],
+                   [3600 + 20, 20] if quick else [5 * 3600, 3600 + 20, 61, 20])
     for k in range(5 if quick else 60):
         random_schedule(ctx, k)
     ctx.exhaustive = False
